@@ -144,9 +144,13 @@ fn data_text<const N: usize>() -> ([u8; N], usize) {
 
 /// C18: the scanner accepts exactly the shape, and the borrowed form (re-scans) and the owned form (stored offsets)
 /// report the same media type / base64 flag / data, which reassemble the text.
-fn dataurl_views<const N: usize>(semicolon_branch: bool) {
+fn dataurl_views<const N: usize>(semicolon_branch: bool, comma_first: bool) {
     let (b, n) = data_text::<N>();
     let s = &b[..n];
+    if comma_first {
+        // empty media type, plain data: the remaining bytes are an arbitrary data part (may contain ';', ',', "base64")
+        kani::assume(n >= 6 && b[5] == b',');
+    }
     if semicolon_branch {
         // steer to the ';' branch: a ';' within the first three bytes after 'data:'
         kani::assume(n >= 6 && (b[5] == b';' || (n >= 7 && is_mt(b[5]) && (b[6] == b';' || (n >= 8 && is_mt(b[6]) && b[7] == b';')))));
@@ -174,22 +178,27 @@ fn dataurl_views<const N: usize>(semicolon_branch: bool) {
 /// Bound: 'data:' + up to 5 ASCII bytes (plain branch and every rejection) - quick tier
 #[kani::proof]
 #[kani::unwind(12)]
-fn dataurl_views_plain_10() { dataurl_views::<10>(false) }
+fn dataurl_views_plain_10() { dataurl_views::<10>(false, false) }
 
 /// Bound: 'data:' + up to 7 ASCII bytes - thorough tier
 #[kani::proof]
 #[kani::unwind(14)]
-fn dataurl_views_plain_12() { dataurl_views::<12>(false) }
+fn dataurl_views_plain_12() { dataurl_views::<12>(false, false) }
+
+/// arbitrary data part: 'data:,' + up to 8 free bytes (long enough to contain ";base64,") - quick tier
+#[kani::proof]
+#[kani::unwind(16)]
+fn dataurl_views_data_14() { dataurl_views::<14>(false, true) }
 
 /// ';base64,' branch: 'data:' + up to 9 bytes with a ';' among the first three - quick tier
 #[kani::proof]
 #[kani::unwind(16)]
-fn dataurl_views_base64_14() { dataurl_views::<14>(true) }
+fn dataurl_views_base64_14() { dataurl_views::<14>(true, false) }
 
 /// ';base64,' branch: 'data:' + up to 10 bytes - thorough tier
 #[kani::proof]
 #[kani::unwind(17)]
-fn dataurl_views_base64_15() { dataurl_views::<15>(true) }
+fn dataurl_views_base64_15() { dataurl_views::<15>(true, false) }
 
 // C08 (Eq / Ord / Hash coherence): harnesses through Hash / PctStr (percent-decoding + utf8-decode loops)
 // did not finish within 10 minutes even for 2-byte inputs (measured twice); the property is listed
